@@ -806,6 +806,8 @@ class Interp:
                 short = cl[1].split("::")[-1]
                 if short in ("Ok", "Some", "Err"):
                     return {"Ok": Ok, "Some": Some, "Err": Err}[short](argv[0])
+                if short in ("from", "into", "to_owned", "to_vec", "clone", "copied", "cloned") and len(argv) == 1:
+                    return argv[0]     # a foreign conversion passed as a function item (`.map(Bytes::from)`) carries the value
                 return Tok("%s(%s)" % (short, ",".join(self.tokname(x) for x in argv)))
             return TOP
         if name in ("is_some", "is_ok"):
